@@ -26,6 +26,8 @@ type Scenario struct {
 	Events    []Event `json:"events"`
 	// ScrapePlan[c][s] = scrape rounds of shard s after cycle c of the perturbed phase (missing: 3)
 	ScrapePlan [][]int `json:"scrapePlan,omitempty"`
+	// NoConvergence: run a fixed number of quiet cycles without demanding convergence (persistent faults)
+	NoConvergence bool `json:"noConvergence,omitempty"`
 }
 
 // Outcome of a run.
@@ -368,6 +370,9 @@ func Run(sc Scenario, root string, rseed int64) *Outcome {
 	stable := 0
 	var lastKey string
 	for c := 0; c < out.Bound+M+1; c++ {
+		if sc.NoConvergence && c >= 12 {
+			return out
+		}
 		co, snap, ok := step("q", c, func(int) int { return 3 })
 		if !ok {
 			return out
